@@ -47,6 +47,61 @@ def invariant(st, arrivals, pos, cap, targets, kind):
     return tuple(idx)
 
 
+def invariant_multi(st, arrivals, cap, targets, kind):
+    """Multiset version for streams in which the same dict OBJECT arrives several times and / or distinct objects carry
+    equal values.  Identity based."""
+    import collections
+    xs, ys = st.get_data()
+    xs, ys = list(xs), list(ys)
+    n = len(arrivals)
+    if not (len(st) == len(xs) == min(n, cap)):
+        raise Bad("count", f"len()={len(st)} stored={len(xs)} seen={n} capacity={cap}")
+    arrived = collections.Counter(id(x) for x, _ in arrivals)
+    stored = collections.Counter(id(x) for x in xs)
+    for i, c in stored.items():
+        if c > arrived.get(i, 0):
+            raise Bad("not-an-arrival", f"an object is stored {c}x but arrived {arrived.get(i, 0)}x")
+    if targets:
+        if len(ys) != len(xs):
+            raise Bad("target-count", f"{len(ys)} targets for {len(xs)} instances")
+        by_obj = collections.defaultdict(collections.Counter)
+        for x, y in arrivals:
+            by_obj[id(x)][id(y)] += 1
+        got = collections.defaultdict(collections.Counter)
+        for x, y in zip(xs, ys):
+            got[id(x)][id(y)] += 1
+        for i, cnt in got.items():
+            for yid, c in cnt.items():
+                if c > by_obj[i].get(yid, 0):
+                    raise Bad("target-misaligned", "a stored target did not arrive with the instance stored at the same position")
+    elif len(ys) != 0:
+        raise Bad("targets-kept", f"store_targets=False but {len(ys)} targets are kept")
+    if kind in ("batch", "interval", "sequence"):
+        exp = arrivals if kind == "batch" else arrivals[max(0, n - cap):]
+        if len(xs) != len(exp) or any(a is not b[0] for a, b in zip(xs, exp)):
+            raise Bad("order", f"{kind} does not hold exactly the last {min(n, cap)} arrivals in order")
+        if targets and any(a is not b[1] for a, b in zip(ys, exp)):
+            raise Bad("target-misaligned", f"{kind}: targets are not those of the last arrivals in order")
+
+
+def drive_multi(kind, k, p, tg, n, rnd, style):
+    st, cap = make(kind, k, p, tg)
+    arrivals, prev = [], None
+    for i in range(n):
+        if style == "repeat-object" and prev is not None and rnd.random() < 0.4:
+            x = prev if rnd.random() < 0.7 else arrivals[rnd.randrange(len(arrivals))][0]
+        elif style == "dup-values":
+            x = {"t": i % 2, "v": 0}
+        else:
+            x = {"t": i, "v": i * i}
+        y = ("y", i)
+        arrivals.append((x, y))
+        prev = x
+        st.update(x, y)
+        invariant_multi(st, arrivals, cap, tg, kind)
+    return n
+
+
 def make(kind, k, p, tg):
     from ixai.storage import (UniformReservoirStorage, GeometricReservoirStorage, IntervalStorage,
                               SequenceStorage, BatchStorage)
@@ -81,7 +136,7 @@ def drive(kind, k, p, tg, n, every=1, outcomes=None):
 def main(run):
     run.rule = ("(a) scripted global RNG: DFS over ALL outcomes of the integer draws and a float palette (0, 1e-12, 1/4, "
                 "1/2, 3/4, 1-2^-53, plus p and p+-ulp for the geometric acceptance) for small capacities / short streams, "
-                "(b) seeded long streams with capacities up to 1000; invariant (sub-multiset by identity, count = "
+                "(b) seeded long streams with capacities up to 1000, (c) streams in which the same dict object arrives repeatedly or distinct objects carry equal values (multiset invariant by identity); invariant (sub-multiset by identity, count = "
                 "min(seen,capacity), targets aligned / absent, order for Batch/Interval/Sequence, stored dicts unmodified) "
                 "checked after every update through len()/get_data() only; evaluations = invariant evaluations; "
                 "non-trivial = distinct (step, stored index tuple) outcomes after the storage filled")
@@ -153,6 +208,22 @@ def main(run):
                     run.violation(f"deterministic:{b.mech}", f"k={k} targets={tg}: {b}", {"k": k, "store_targets": tg})
                 for o in outs:
                     run.nontriv(("det", k, tg, o))
+    # ---- repeated objects / equal-valued observations (identity-based multiset invariant)
+    for style in ("repeat-object", "dup-values"):
+        for kind, k, p in (("interval", 1, None), ("interval", 3, None), ("sequence", 1, None), ("batch", 0, None),
+                           ("geometric", 2, 0.7), ("geometric", 4, 1.0), ("geometric", 5, None), ("uniform", 3, None), ("uniform", 1, None)):
+            for tg in (True, False):
+                for rep in range(3 if not thorough else 12):
+                    random.seed(rnd.randrange(2 ** 31))
+                    try:
+                        run.ok(drive_multi(kind, k, p, tg, 60 if not thorough else 200, rnd, style), kind=style)
+                        run.nontriv(("multi", style, kind, k, tg, rep, sh))
+                    except Bad as b:
+                        run.ok(kind=style)
+                        run.violation(f"{kind if kind in ('geometric', 'uniform') else 'deterministic'}:{b.mech}",
+                                      f"{kind} k={k} p={p} targets={tg} stream style {style}: {b}",
+                                      {"kind": kind, "k": k, "p": p, "store_targets": tg, "style": style})
+                        break
     # ---- (b) long seeded streams
     n_long = 20000 if thorough else 4000
     for j, (kind, k, p) in enumerate([("uniform", 1, None), ("uniform", 7, None), ("uniform", 100, None),
